@@ -49,11 +49,13 @@ type cadenceCase struct {
 	Conc       int
 	BodyUs     int
 	Limit      uint64 // max-iterations of the run (0 = none); chosen so that it cannot be reached
+	StallAt    int    // the rate function holds the ticking goroutine up at this evaluation (0 = never) ...
+	StallPct   int    // ... for this many percent of an interval
 	Special    string // "" | "limit-above-reach" | "huge-ticks"
 }
 
 func (c cadenceCase) desc() string {
-	return fmt.Sprintf("interval=%dus(+%dms) run=%dms profile=%s n=%d stages=%q dist=%s c=%d body=%dus limit=%d %s", c.IntervalUs, c.IntervalMs, c.RunMs, c.Profile, c.N, c.Stages, c.Dist, c.Conc, c.BodyUs, c.Limit, c.Special)
+	return fmt.Sprintf("interval=%dus(+%dms) run=%dms profile=%s n=%d stages=%q dist=%s c=%d body=%dus limit=%d %s", c.IntervalUs, c.IntervalMs, c.RunMs, c.Profile, c.N, c.Stages, c.Dist, c.Conc, c.BodyUs, c.Limit, c.Special) + fmt.Sprintf(" stall=%d%%@%d", c.StallPct, c.StallAt)
 }
 
 func TestProp_WrappedRateCadence(t *testing.T) {
@@ -91,6 +93,12 @@ func TestProp_WrappedRateCadence(t *testing.T) {
 			c.IntervalMs = rapid.IntRange(20, 100).Draw(rt, "intervalMsHuge")
 			c.RunMs = rapid.IntRange(50, 300).Draw(rt, "runMsShort")
 			c.N = rapid.SampledFrom([]int{1500, 5000, 20000, 60000}).Draw(rt, "hugeN")
+		}
+		if c.IntervalMs <= 40 && rapid.IntRange(0, 2).Draw(rt, "stall") == 0 {
+			// a scheduling delay of the ticking goroutine of several intervals, made certain: ticks are
+			// dropped meanwhile; what is evaluated afterwards is still handed over evaluation by evaluation
+			c.StallAt = rapid.IntRange(1, 6).Draw(rt, "stallAtEvaluation")
+			c.StallPct = rapid.IntRange(160, 450).Draw(rt, "stallPercentOfInterval")
 		}
 		var rates *api.Rates
 		var err error
@@ -135,6 +143,7 @@ func TestProp_WrappedRateCadence(t *testing.T) {
 		base := time.Now()
 		var mu sync.Mutex
 		var evals []evaluation
+		var order []byte // 'E' = an evaluation returned, 'T' = a request was handed to the pool under a live context
 		var trigCtx atomic.Pointer[context.Context]
 		var firstEntry atomic.Int64
 		var entries atomic.Int64
@@ -147,9 +156,22 @@ func TestProp_WrappedRateCadence(t *testing.T) {
 			v := rates.Rate(now)
 			mu.Lock()
 			evals = append(evals, evaluation{At: at, Value: v, CtxLive: live})
+			order = append(order, 'E')
+			n := len(evals)
 			mu.Unlock()
+			if c.StallAt > 0 && n == c.StallAt+1 {
+				time.Sleep(tick * time.Duration(c.StallPct) / 100)
+			}
 			return v
 		}
+		removeHook := vlib.InstallGates(func(point string) {
+			if point == "pool.trigger.after_ctx_check" {
+				mu.Lock()
+				order = append(order, 'T')
+				mu.Unlock()
+			}
+		})
+		defer removeHook()
 		inner := api.NewIterationWorker(interval, wrapped)
 		trig := &api.Trigger{
 			Trigger: func(ctx context.Context, out *ui.Output, w *workers.PoolManager, o options.RunOptions) {
@@ -183,8 +205,10 @@ func TestProp_WrappedRateCadence(t *testing.T) {
 		if c.Limit > 0 && started >= c.Limit {
 			rt.Fatalf("VERIF-INFRA: %d iterations started although the case was built so that max-iterations %d is out of reach (%s)", started, c.Limit, c.desc())
 		}
+		removeHook()
 		mu.Lock()
 		ev := append([]evaluation{}, evals...)
+		ord := string(order)
 		mu.Unlock()
 
 		sum := 0
@@ -208,6 +232,9 @@ func TestProp_WrappedRateCadence(t *testing.T) {
 		if c.Special != "" {
 			cls = append(cls, c.Special)
 		}
+		if c.StallAt > 0 && len(ev) > c.StallAt+1 {
+			cls = append(cls, "ticking-goroutine-held-up")
+		}
 		stats.Case("wrapped", c.desc(), nontrivial, cls, func() any {
 			return map[string]any{"case": c.desc(), "evaluations": len(ev), "requested": sum, "started": started, "dropped": snap.DroppedIterationCount}
 		})
@@ -222,6 +249,18 @@ func TestProp_WrappedRateCadence(t *testing.T) {
 			if min := time.Duration(n) * interval; ev[n].At-ev[0].At+slack < min {
 				fail("evaluation #%d came %s after the first one; at most 1 + floor(e/interval) evaluations are allowed by elapsed time e, i.e. #%d not before %s (interval %s)",
 					n, ev[n].At-ev[0].At, n, min, interval)
+			}
+		}
+		// each evaluation's value is THAT tick's request: between two evaluations entered under a live
+		// context the first one's value has been handed to the pool (one request per evaluation, never
+		// several evaluations folded into one request)
+		k := 0
+		for i := 0; i+1 < len(ord); i++ {
+			if ord[i] == 'E' {
+				if ord[i+1] == 'E' && k+1 < len(ev) && ev[k+1].CtxLive {
+					fail("evaluations #%d and #%d follow each other without the first one's value having been handed to the worker pool in between (order of evaluations E and hand-overs T: %s)", k, k+1, ord)
+				}
+				k++
 			}
 		}
 		if fe := firstEntry.Load(); fe != 0 && time.Duration(fe-1) < ev[0].At {
